@@ -20,7 +20,7 @@ type C09 struct{}
 
 func (C09) ID() string { return "C09" }
 func (C09) Rule() string {
-	return "rapid-generated trees (<=10 nodes) x {fatal-on-fs-errors, size limit, gitignore, whole tree / requested paths, symlink reading} x 1-3 extractors; per tree the fault-free history is recorded and EVERY single fault (site = k-th occurrence of stat/open/readdir/fstat/read/readdirall on a path, kinds perm/notexist/eio and eio-partial for reads) is injected, plus every ordered pair (second site taken from the history of the run with the first fault; kinds perm,eio) when the fault-free history has <= 40 file-system operations (quick) / <= 90 (thorough); evaluation = one scan under one fault plan; non-trivial scenario = at least one fault fired AND at least one extraction lies outside its blast radius; distinct = distinct scenario JSON"
+	return "rapid-generated trees (<=10 nodes) x {fatal-on-fs-errors, size limit, gitignore, whole tree / requested paths, symlink reading} x 1-3 extractors; per tree the fault-free history is recorded and EVERY single fault (site = k-th occurrence of stat/open/readdir/fstat/read/readdirall on a path; kinds perm/notexist/eio, eio-partial for reads, and persistent variants in which every occurrence from the k-th on fails) is injected, plus every ordered pair (second site taken from the history of the run with the first fault; kinds perm,eio) when the fault-free history has <= 40 file-system operations (quick) / <= 90 (thorough); evaluation = one scan under one fault plan; non-trivial scenario = at least one fault fired AND at least one extraction lies outside its blast radius; distinct = distinct scenario JSON"
 }
 
 func (C09) Gen(rt *rapid.T, tier string) any {
@@ -83,9 +83,9 @@ func kindsFor(op string, pair bool) []string {
 		return []string{"perm", "eio"}
 	}
 	if op == "read" {
-		return []string{"perm", "eio", "eio-partial"}
+		return []string{"perm", "eio", "eio-partial", "eio+"}
 	}
-	return []string{"perm", "notexist", "eio"}
+	return []string{"perm", "notexist", "eio", "perm+", "eio+"}
 }
 
 // failingObject is what a delivered fault is allowed to take down.
@@ -281,7 +281,11 @@ func planKey(plan []Fault) string {
 		if path.Base(f.Path) == ".gitignore" {
 			p = "gitignore"
 		}
-		s = append(s, f.Op+"("+p+")")
+		op := f.Op
+		if f.Sticky {
+			op += "+"
+		}
+		s = append(s, op+"("+p+")")
 	}
 	sort.Strings(s)
 	return strings.Join(s, "+")
@@ -451,9 +455,13 @@ func (C09) Run(t *testing.T, sc any) *sim.Outcome {
 			}
 		}
 		for _, f := range plan {
-			out.Count("planned_"+f.Op+"_"+f.Kind, 1)
+			kind := f.Kind
+			if f.Sticky {
+				kind += "-persistent"
+			}
+			out.Count("planned_"+f.Op+"_"+kind, 1)
 			if obs.Fired[f.Site()] > 0 {
-				out.Count("fired_"+f.Op+"_"+f.Kind, 1)
+				out.Count("fired_"+f.Op+"_"+kind, 1)
 			}
 		}
 		if len(out.Violations) > nv && out.ReplayScenario == nil {
@@ -482,6 +490,10 @@ func (C09) Run(t *testing.T, sc any) *sim.Outcome {
 			for _, kind := range kindsFor(s.Op, false) {
 				f1 := s
 				f1.Kind = kind
+				if strings.HasSuffix(kind, "+") { // persistent variant
+					f1.Kind = strings.TrimSuffix(kind, "+")
+					f1.Sticky = true
+				}
 				o1 := runPlan([]Fault{f1})
 				if len(out.Violations) > 0 {
 					break
